@@ -99,6 +99,27 @@ theorem cB_len (cx : Cx) (Γ : Gam) (b : B) : ∀ (pc o : Nat) (ifT ifF : List I
     simp only [cB, lenB, List.length_append, ihl, ihr]
     cases hg : endsGoto ifT <;> simp [hg]
 
+theorem cD_len (cx : Cx) (Γ : Gam) (b : B) : ∀ (pc o : Nat), (cD cx Γ pc o b).length = lenD cx.checked b := by
+  induction b with
+  | lit v => intro pc o; cases v <;> rfl
+  | cmp op l r =>
+    intro pc o
+    rcases hcl : cE cx Γ pc o cx.r0 l (!isSafe r) with ⟨c1, vl, p1⟩
+    have sl : (vl, p1) = shape cx Γ o cx.r0 l (!isSafe r) := by
+      have := cE_shape cx Γ l pc o cx.r0 (!isSafe r); rw [hcl] at this; exact this
+    have hl : c1.length = lenE l cx.checked (!isSafe r) := by
+      have := cE_len cx Γ l pc o cx.r0 (!isSafe r); rw [hcl] at this; exact this
+    rcases hcr : cE cx Γ (pc + c1.length) (if p1 then o + cx.w else o) cx.r1 r false with ⟨c2, vr0, p2⟩
+    have sr : (vr0, p2) = shape cx Γ (if p1 then o + cx.w else o) cx.r1 r false := by
+      have := cE_shape cx Γ r (pc + c1.length) (if p1 then o + cx.w else o) cx.r1 false; rw [hcr] at this; exact this
+    have hr : c2.length = lenE r cx.checked false := by
+      have := cE_len cx Γ r (pc + c1.length) (if p1 then o + cx.w else o) cx.r1 false; rw [hcr] at this; exact this
+    simp only [cD, hcl, hcr, lenD]
+    cases l <;> cases r <;> simp_all [shape, isSafe, getOp, List.length_append] <;> omega
+  | not b _ => intro pc o; rfl
+  | and l r _ _ => intro pc o; rfl
+  | or l r ihl ihr => intro pc o; simp only [cD, lenD, List.length_append, ihl, ihr]
+
 /-! ## statements -/
 theorem pushE_len (cx : Cx) (Γ : Gam) (pc o : Nat) (e : E) :
     (pushE cx Γ pc o e).length = lenPush cx.checked e := by
@@ -148,5 +169,10 @@ theorem cS_len (cx : Cx) (s : S) : ∀ (Γ : Gam) (pc o : Nat),
   | loop c body cont k ihb ihc ihk =>
     intro Γ pc o
     simp [cS, lenS, cB_len, ihb, ihc, ihk]; omega
+  | defeat k ih => intro Γ pc o; simp [cS, lenS, ih]; omega
+  | defeatIf c k ih => intro Γ pc o; simp [cS, lenS, cD_len, ih]
+  | tryUndo body handler k ihb ihh ihk =>
+    intro Γ pc o
+    simp [cS, lenS, ihb, ihh, ihk]; omega
 
 end HidVerif.Core
